@@ -81,7 +81,13 @@ void harness_split_f5(void) { split_src_only(wuffs_demo__parser__f5); }
 
 // ---- transform_io of the corpus: source and destination both split ----
 
-void harness_split_transform(void) {
+typedef wuffs_base__status (*io_coro)(wuffs_demo__parser*, wuffs_base__io_buffer*, wuffs_base__io_buffer*);
+
+static wuffs_base__status call_transform(wuffs_demo__parser* p, wuffs_base__io_buffer* d, wuffs_base__io_buffer* s) {
+  return wuffs_demo__parser__transform_io(p, d, s, wuffs_base__empty_slice_u8());
+}
+
+static void split_dst_src(io_coro fn) {
   uint8_t in[MAXN];
   uint64_t n = verif_conc(nondet_u64() % (verif_param("N") + 1));
   for (uint64_t i = 0; i < n; i++) in[i] = nondet_u8();
@@ -91,7 +97,7 @@ void harness_split_transform(void) {
   uint8_t outa[16] = {0};
   wuffs_base__io_buffer da = wuffs_base__ptr_u8__writer(outa, sizeof outa);
   wuffs_base__io_buffer sa = wuffs_base__ptr_u8__reader(in, n, true);
-  wuffs_base__status ra = wuffs_demo__parser__transform_io(&a, &da, &sa, wuffs_base__empty_slice_u8());
+  wuffs_base__status ra = fn(&a, &da, &sa);
 
   wuffs_demo__parser b;
   verif_check(wuffs_demo__parser__initialize(&b, sizeof b, WUFFS_VERSION, 0).repr == NULL, "split/init-b");
@@ -110,7 +116,7 @@ void harness_split_transform(void) {
   wuffs_base__status rb = wuffs_base__make_status(NULL);
   for (int64_t step = 0; step < verif_param("STEPS"); step++) {
     uint64_t wi0 = db.meta.wi, ri0 = sb.meta.ri;
-    rb = wuffs_demo__parser__transform_io(&b, &db, &sb, wuffs_base__empty_slice_u8());
+    rb = fn(&b, &db, &sb);
     verif_check(sb.meta.ri >= ri0 && sb.meta.ri <= sb.meta.wi, "split/src-index-monotone");
     verif_check(db.meta.wi >= wi0 && db.meta.wi <= db.data.len, "split/dst-index-monotone");
     // drain the destination
@@ -143,6 +149,9 @@ void harness_split_transform(void) {
   verif_check(a.private_impl.f_last == b.private_impl.f_last, "split/same-state-last");
   verif_reach("split/done");
 }
+
+void harness_split_transform(void) { split_dst_src(call_transform); }
+void harness_split_f6(void) { split_dst_src(wuffs_demo__parser__f6); }
 
 // ---- std hashers: update over a partition equals update over the whole ----
 
